@@ -189,6 +189,17 @@ func rowS(in strIn) (map[string]interface{}, error) {
 		uq, uqerr := address.UnquoteMbox(q)
 		o["uq"] = map[string]interface{}{"ok": uqerr == nil, "val": tokens(uq)}
 	})
+	if len(in.S) == 1 && (in.S[0] == "pm" || in.S[0] == "PM" || in.S[0] == "Pm") {
+		// the domain-less postmaster address: what the domain conversions make of it
+		guard(&panics, "postmaster conversions", func() {
+			cl, _ := address.CleanDomain(s)
+			ta, _ := address.ToASCII(s)
+			tu, _ := address.ToUnicode(s)
+			rtu, _ := address.ToUnicode(ta)
+			o["pmconv"] = map[string]interface{}{"clean": tokens(cl), "toascii": tokens(ta),
+				"tounicode": tokens(tu), "rtu": tokens(rtu)}
+		})
+	}
 	guard(&panics, "ToASCII", func() {
 		ta, taerr := address.ToASCII(s)
 		o["toasciiNonAscii"] = taerr == nil && nonASCII(ta)
